@@ -363,6 +363,14 @@ fn cluster_oracle(w: &NetWorld, _resolutions: usize) -> Vec<(String, String)> {
         ));
         return out;
     }
+    if notices > recorded {
+        // more notices than conflicts the writer was told about: one client write was queued twice
+        out.push((
+            "one-write-recorded-as-two-conflicts".to_string(),
+            format!("the writer was told of {} conflict(s) but the arbiter on n{} received {} notice(s): {:?}", recorded, arb.node + 1, notices, arb.inbox.iter().filter(|m| m.starts_with("resolve ")).map(|m| m.split(' ').skip(4).collect::<Vec<_>>().join(" ")).collect::<Vec<_>>()),
+        ));
+        return out;
+    }
     if notices != recorded {
         out.push((
             "conflict-not-delivered-to-registered-arbiter".to_string(),
@@ -459,4 +467,48 @@ pub fn run_cluster(run: &mut Run) {
     run.cov("cluster_configs_skipped", serde_json::json!(skipped));
     let ex = run.coverage.get("exhaustive").and_then(|v| v.as_bool()).unwrap_or(false);
     run.cov("exhaustive", serde_json::json!(ex && capped == 0 && skipped == 0));
+}
+
+/// `./check replay <file>` for a C13 cluster counterexample
+pub fn replay_cluster(script: &str, path: &[String]) -> i32 {
+    crate::net::init_sleep_sites();
+    // "arbiter on n2, writer on n2: set-safe k 0 c1 ; set k c2"
+    let num = |s: &str, pat: &str| -> usize { s.split(pat).nth(1).and_then(|r| r.chars().next()).and_then(|c| c.to_digit(10)).unwrap_or(1) as usize - 1 };
+    let (a, wn) = (num(script, "arbiter on n"), num(script, "writer on n"));
+    let writes: Vec<&str> = script.split(": ").nth(1).unwrap_or("").split(" ; ").collect();
+    let mut w = match build_cluster(a, wn, &writes, writes.len()) {
+        Ok(w) => w,
+        Err(e) => {
+            eprintln!("machinery: {}", e);
+            return 2;
+        }
+    };
+    for (i, want) in path.iter().enumerate() {
+        let en = w.enabled(true);
+        let t = match en.iter().find(|t| format!("{:?}", t) == *want) {
+            Some(t) => t.clone(),
+            None => {
+                eprintln!("replay divergence at step {}: {} is not enabled; enabled {:?}", i, want, en);
+                w.shutdown();
+                return 2;
+            }
+        };
+        if let Err(e) = w.apply(&t) {
+            eprintln!("machinery: {}", e);
+            return 2;
+        }
+        let msgs: Vec<String> = w.traffic.drain(..).map(|(f, t, m)| format!("n{}->n{} {}", f + 1, t + 1, m)).collect();
+        println!("{:4} {:16} {}", i, want, msgs.join(" | "));
+    }
+    println!("arbiter inbox: {:?}", w.clients[0].inbox);
+    println!("writer replies: {:?}", w.clients[1].replies);
+    for i in 0..w.nodes.len() {
+        println!("n{}: {:?}", i + 1, crate::props::cluster::data_view(&w, i).get("t"));
+    }
+    let en = w.enabled(true);
+    println!("enabled afterwards: {:?}", en);
+    let r = if en.is_empty() { cluster_oracle(&w, writes.len()) } else { vec![] };
+    println!("oracle: {:?}", r);
+    w.shutdown();
+    if r.is_empty() { 0 } else { 1 }
 }
